@@ -7,6 +7,7 @@ Tie of Model/Fasta.lean to fasta.py / formulas.py:
   strings of length 0..5000 with blanks, `*`, unknown codes; permutations; `aa:`/`dna:`/`rna:`
   prefixes through `formula()`; random FASTA texts through `read_fasta` (iterable of lines) and
   through real files (`Sequence.load/loadall`, universal newlines, type from the extension);
+* real code only (oracle, permutation, sum of two parts): a few sequences of 10 000 .. 30 000 codes;
 * direct oracle: sums over the residue entries of the real tables in exact `Fraction`s, the
   record structure of the text recomputed independently.
 """
@@ -305,6 +306,85 @@ def stream_sequences(run: Run, fasta, formula, batch: Batch, n, na):
         batch.ask("seq %s %s" % (ty, hx(s)), chk)
 
 
+def stream_long(run: Run, fasta, formula, n, na):
+    """sequences of 10 000 .. 30 000 codes (whole genes; the sums are linear, so they stay cheap): the boundary
+    lengths around 10 000, repeated charged codes, small pools; judged by the per-code sum oracle, by a
+    permutation and by k copies of a block = k times the block (real code only, not sent to the driver)"""
+    rng = run.rng
+    charged = {"aa": [c for c in sorted(fasta.CODE_TABLES["aa"]) if fasta.CODE_TABLES["aa"][c].charge != 0]}
+    lengths = ([10000, 10001, 10002] + [rng.randint(10003, 30000) for _ in range(max(0, n - 3))])[:n]
+    for i, length in enumerate(lengths):
+        ty = "aa" if i % 3 != 2 else rng.choice(["dna", "rna"])
+        codes = sorted(fasta.CODE_TABLES[ty].keys())
+        shape = i % 4
+        if shape == 0:      # every code of the table, uniformly
+            s = "".join(rng.choice(codes) for _ in range(length))
+        elif shape == 1:    # a small pool with at least two charged codes, each many times
+            pool = rng.sample(codes, rng.randint(2, 5)) + (rng.sample(charged[ty], 2) if ty in charged else [])
+            s = "".join(rng.choice(pool) for _ in range(length))
+        elif shape == 2:    # k copies of a block and a remainder
+            block = "".join(rng.choice(codes) for _ in range(rng.randint(50, 400)))
+            s = (block * (length // len(block) + 1))[:length]
+        else:               # one charged code (or any code) repeated, a few others
+            one = rng.choice(charged[ty]) if ty in charged else rng.choice(codes)
+            s = "".join(one if rng.random() < 0.8 else rng.choice(codes) for _ in range(length))
+        tags = []
+        if i % 2 == 1:
+            k = rng.randrange(len(s))
+            s = s[:k] + " " + s[k:]
+            tags.append("blank")
+        if i % 5 == 3:
+            s += "*" + "".join(rng.choice(codes) for _ in range(rng.randint(0, 300)))
+            tags.append("star")
+        cleaned = s.split("*", 1)[0].replace(" ", "")
+        inp = dict(type=ty, sequence=s[:300] + "…(%d)" % len(s), full=s)
+        run.count(key=(ty, s), nontrivial=True, tag="seq-long:%s:%s" % (ty, "+".join(tags) if tags else "plain"))
+        run.dist["len:10000+"] = run.dist.get("len:10000+", 0) + 1
+        run.last_input = dict(type=ty, length=len(cleaned))
+        try:
+            q = fasta.Sequence("x", s, type=ty)
+            obs = observe(q)
+        except Exception as ex:  # noqa
+            run.violation("a long sequence over the code table raised %s" % type(ex).__name__, inp, clause="accept")
+            continue
+        orc = oracle_sequence(fasta, ty, s, na)
+        check_against_oracle(run, inp, obs, orc, q)
+        if q.sequence != cleaned:
+            run.violation("blanks / text after '*' are not dropped from a long sequence", inp, clause="star-blank")
+        # the same multiset in another order
+        perm = list(cleaned)
+        rng.shuffle(perm)
+        try:
+            q2 = observe(fasta.Sequence("x", "".join(perm), type=ty))
+            for k in ("vol", "charge", "mass", "dmass", "density"):
+                if not close(q2[k], obs[k], rel=1e-9, abs_=1e-7):
+                    run.violation("sequence depends on residue order: %s" % k,
+                                  dict(inp, permuted="".join(perm)), clause="permutation")
+        except Exception as ex:  # noqa
+            run.violation("a permuted long sequence raised %s" % type(ex).__name__, dict(inp, permuted="".join(perm)),
+                          clause="permutation")
+        # two halves: the whole is the sum of its parts (both routes on the real code)
+        cut = rng.randint(1, len(cleaned) - 1)
+        try:
+            a, b = fasta.Sequence("a", cleaned[:cut], type=ty), fasta.Sequence("b", cleaned[cut:], type=ty)
+            for k, whole, parts in (("vol", q.cell_volume, a.cell_volume + b.cell_volume),
+                                    ("charge", q.charge, a.charge + b.charge),
+                                    ("mass", q.mass, a.mass + b.mass), ("dmass", q.Dmass, a.Dmass + b.Dmass)):
+                if not close(whole, parts, rel=1e-9, abs_=1e-7):
+                    run.violation("a long sequence is not the sum of its two parts: %s %r, parts %r" % (k, whole, parts),
+                                  dict(inp, cut=cut), clause="sum")
+        except Exception as ex:  # noqa
+            run.violation("a part of a long sequence raised %s" % type(ex).__name__, dict(inp, cut=cut), clause="sum")
+        if i % 3 == 1:
+            try:
+                pf = formula(ty + ":" + s)
+                ok = struct_eq(pyside.struct_keys(pf.structure), obs["labile"]) and close(pf.density, obs["density"])
+            except Exception as ex:  # noqa
+                ok = False
+            if not ok:
+                run.violation("formula('%s:…') differs from the Sequence class" % ty, inp, clause="prefix")
+
+
 def stream_prefix(run: Run, fasta, formula, batch: Batch, n):
     rng = run.rng
     prefixes = ["aa", "dna", "rna", "AA", "Aa", "aa ", " aa", "", "dn", "rnaa", "protein", "a:a", "aa:", "dna:rna"]
@@ -547,6 +627,7 @@ def run(run: Run) -> int:
     try:
         guarded(run, "code tables", stream_codes, run, fasta, batch)
         guarded(run, "sequences", stream_sequences, run, fasta, formula, batch, 1200 if quick else 20000, na)
+        guarded(run, "long sequences", stream_long, run, fasta, formula, 8 if quick else 60, na)
         guarded(run, "prefix dispatch", stream_prefix, run, fasta, formula, batch, 300 if quick else 5000)
         guarded(run, "read_fasta", stream_fasta, run, fasta, batch, 1500 if quick else 30000)
         guarded(run, "Sequence.load/loadall", stream_files, run, fasta, batch, 200 if quick else 3000)
